@@ -29,6 +29,10 @@ Step(t) ==
     /\ phase[t] = "prog" /\ pc[t] <= Len(Prog[t])
     /\ LET op == Prog[t][pc[t]]
            delta == IF op.op = "get" THEN 1 ELSE -1
+           \* "putvia": the reference is released by a container that held it (element deleted / overwritten, member deleted /
+           \* replaced, container destroyed) - the same decrement as json_object_put, through another door of the code.
+           \* Mutant "container_put_plain": that door decrements with a plain load and store when other owners remain
+           atomic == AtomicRMW /\ ~(op.op = "putvia" /\ "container_put_plain" \in MUTT)
        IN IF AtomicRMW /\ op.op = "put" /\ "put_check_then_act" \in MUTT
           \* mutant: json_object_put decides with a plain read ("more than one owner left?") and only then decrements
           THEN IF tmp[t] = -1
@@ -36,7 +40,7 @@ Step(t) ==
                ELSE /\ (IF tmp[t] > 1 THEN rc' = [rc EXCEPT ![op.n] = @ - 1] /\ UNCHANGED <<dead, ndestroy>>
                         ELSE rc' = [rc EXCEPT ![op.n] = 0] /\ dead' = dead \cup {op.n} /\ ndestroy' = [ndestroy EXCEPT ![op.n] = @ + 1])
                     /\ tmp' = [tmp EXCEPT ![t] = -1] /\ pc' = [pc EXCEPT ![t] = @ + 1] /\ UNCHANGED bad
-          ELSE IF AtomicRMW
+          ELSE IF atomic
           THEN /\ Apply(op.n, delta) /\ bad' = (bad \/ Touch(op.n)) /\ pc' = [pc EXCEPT ![t] = @ + 1] /\ UNCHANGED tmp
           ELSE IF tmp[t] = -1
                THEN /\ tmp' = [tmp EXCEPT ![t] = rc[op.n]] /\ bad' = (bad \/ Touch(op.n)) /\ UNCHANGED <<rc, dead, ndestroy, pc>>   \* load
@@ -78,7 +82,7 @@ Next == (\E t \in Thr : Step(t) \/ ProgDone(t) \/ ReadSeed(t) \/ Publish(t) \/ H
 Spec == Init /\ [][Next]_vars
 \* net effect of the threads' programs on node n, and the count every node must end with
 RECURSIVE NetOf(_, _, _)
-NetOf(p, i, n) == IF i > Len(p) THEN 0 ELSE (IF p[i].n = n THEN (IF p[i].op = "get" THEN 1 ELSE -1) ELSE 0) + NetOf(p, i + 1, n)
+NetOf(p, i, n) == IF i > Len(p) THEN 0 ELSE (IF p[i].n = n THEN (IF p[i].op = "get" THEN 1 ELSE -1) ELSE 0) + NetOf(p, i + 1, n)   \* ("put" and "putvia" alike)
 RECURSIVE SumThreads(_, _)
 SumThreads(t, n) == IF t = 0 THEN 0 ELSE NetOf(Prog[t], 1, n) + SumThreads(t - 1, n)
 Final(n) == InitRc + SumThreads(NThreads, n) - (IF MainHolds /\ mainput THEN 1 ELSE 0)
